@@ -341,12 +341,18 @@ int fiber_wait_for_event(int fd, uint32_t events) {
   e.events = EPOLLONESHOT | info->events;
   e.data.fd = fd;
 
-  if (!info->added) {
-    epoll_ctl(event_fd, EPOLL_CTL_ADD, fd, &e);
-    info->added = 1;
-  } else {
-    epoll_ctl(event_fd, EPOLL_CTL_MOD, fd, &e);
+  const int ctl_ret = epoll_ctl(
+      event_fd, info->added ? EPOLL_CTL_MOD : EPOLL_CTL_ADD, fd, &e);
+  if (ctl_ret) {
+    // the descriptor cannot be watched (e.g. another fiber closed it between
+    // the caller's check and this point): nobody would ever wake this fiber
+    if (!info->waiters) {
+      info->events = 0;
+    }
+    fiber_spinlock_unlock(&info->spinlock);
+    return FIBER_ERROR;
   }
+  info->added = 1;
 #elif defined(SOLARIS)
   if (events & FIBER_POLL_IN) {
     info->events |= POLLIN;
